@@ -827,6 +827,24 @@ def oracle_latest(scan, label, date):
     return None if best is None else best[1]
 
 
+# histories that once disagreed with the model (kept as regression cases) or that the generator rarely builds
+FIXED_HISTORIES = [
+    # a date entry that is a file: ENOTDIR from every path below it, not ENOENT
+    [("latest", "lab2", "20240101"), ("touch", ["20231231"], 1), ("latest", "x", None), ("latest", "x", "20300101"),
+     ("mkf", "x", "20231231", "000000"), ("touch", ["20231231", "000000_x", "d1.dat"], 6), ("mkdir", ["20231231", "000000_x"]),
+     ("list", None)],
+    # three folders of one label on one date, created out of order; second write with and without overwrite
+    [("mkf", "lab", "20240102", "120000"), ("mkf", "lab", "20240102", "235959"), ("mkf", "lab", "20240102", "000000"),
+     ("mkf", "lab", "20240101", "235959"), ("mkf", "lab2", "20240110", "000000"), ("latest", "lab", None),
+     ("latest", "lab", "20240101"), ("latest", "lab2", None), ("list", "lab"), ("mkf", "lab", "20240102", "235959"),
+     ("write", ["20240102", "235959_lab"], "d1", "hdf5", False, 1), ("write", ["20240102", "235959_lab"], "d1", "hdf5", False, 2),
+     ("write", ["20240102", "235959_lab"], "d1", "text", False, 3), ("write", ["20240102", "235959_lab"], "d1", "text", False, 4),
+     ("write", ["20240102", "235959_lab"], "d1", "text", True, 5), ("write", ["20240102", "235959_lab"], "d1", "hdf5", True, 6),
+     ("mkh5", ["20240102", "235959_lab"], "d1", 7), ("mkh5", ["20240102", "235959_lab"], "d2", 8),
+     ("mkh5", ["20240102", "235959_lab"], "d2", 9)],
+]
+
+
 def cfmt(f):
     return {"hdf5": "FHdf5", "text": "FText"}.get(f, "FOther")
 
@@ -869,9 +887,9 @@ def do_store(cx, nhist):
     rng = ck.rng
     base0 = os.path.join(ck.scratch_dir(), "stores")
     os.makedirs(base0, exist_ok=True)
-    for i in range(nhist):
-        quirk = rng.random() < 0.08
-        ops = gen_store_ops(rng, quirk)
+    for i in range(nhist + len(FIXED_HISTORIES)):
+        quirk = rng.random() < 0.08 and i >= len(FIXED_HISTORIES)
+        ops = FIXED_HISTORIES[i] if i < len(FIXED_HISTORIES) else gen_store_ops(rng, quirk)
         base = os.path.join(base0, "h%d" % i)
         os.mkdir(base)
         eff, obs, final, fails = run_store(base, ops)
